@@ -69,6 +69,7 @@ type Sched struct {
 // New returns a scheduler over a choice list.
 func New(choices []int) *Sched {
 	resetPools()
+	seedRand(choices)
 	return &Sched{byGID: map[int64]*Task{}, Choices: choices, driverGID: gid()}
 }
 
